@@ -326,7 +326,7 @@ func checkMain(args []string) int {
 	for _, k := range keys {
 		v := viol[k]
 		sc := findScenario(violScenario[k].Scenario)
-		for i := 0; i < 5; i++ {
+		for i := 0; i < 5 && k != "hang/execution-never-ends"; i++ { // (that one has been seen twice in fresh workers; replaying it here would never end)
 			rep := runOne(sc, v.Choices, false)
 			ok := false
 			for _, rv := range rep.Viol {
